@@ -111,17 +111,22 @@ func (c *Ctx) e4Service() bool {
 	}
 	{
 		okFlow, d := false, "the reader never calls parse with a window of its Read buffer"
-		for _, b := range sReader.Blocks {
-			for _, ins := range b.Instrs {
-				call, ok := ins.(*ssa.Call)
-				if !ok || call.Call.StaticCallee() != parse {
-					continue
-				}
-				for _, o := range c.origins(call.Call.Args[1], nil, nil) {
-					if o.Kind == "alloc" {
-						// the same allocation must be an argument of Read
-						okFlow = true
-						d = ""
+		for _, rf := range c.familyOf(sReader) {
+			for _, b := range rf.Blocks {
+				for _, ins := range b.Instrs {
+					call, ok := ins.(*ssa.Call)
+					if !ok || call.Call.StaticCallee() != parse {
+						continue
+					}
+					// followed through the parameters of helpers the read loop may be split into
+					for _, av := range c.resolveParam(call.Call.Args[1], "service") {
+						for _, o := range c.origins(av, nil, nil) {
+							if o.Kind == "alloc" {
+								// the same allocation must be an argument of Read
+								okFlow = true
+								d = ""
+							}
+						}
 					}
 				}
 			}
@@ -288,12 +293,19 @@ func runC09(c *Ctx) {
 	sReader := c.P.Method("service", "connection", "reader")
 	// use after send
 	for _, fn := range []*ssa.Function{sReader} {
-		n, bad := c.useAfterSend(fn)
+		// the reader and the helpers of the package its loop body is split into
+		n := 0
+		var bad []string
+		for _, rf := range c.familyOf(fn) {
+			n2, bad2 := c.useAfterSend(rf)
+			n += n2
+			bad = append(bad, bad2...)
+		}
 		st, d := report.Discharged, ""
 		if len(bad) > 0 {
 			st, d = report.Violated, strings.Join(bad, "; ")
 		}
-		R.Add("E5.use-after-send", fmt.Sprintf("%s / %d pointer sends", shortFn(fn), n), c.P.RelPos(fn.Pos()), st, d)
+		R.Add("E5.use-after-send", shortFn(fn)+" / pointer sends of the read loop", c.P.RelPos(fn.Pos()), st, d)
 		if n == 0 {
 			R.Fatal("no pointer send found in %s (anchor)", shortFn(fn))
 		}
